@@ -200,8 +200,8 @@ Definition case_gen (l : list sexp) : sexp :=
       | Some d =>
           let po := run_pipeline d in
           let evs := SList (List.map enc_event (po_events po)) in
-          (* the hypothesis of the no-panic theorem, reported with every run *)
-          let wf := sx_tag "wf" [sx_bool (dump_wf_b d)] in
+          (* the hypotheses of the no-panic and no-fuel-exhaustion theorems, reported with every run *)
+          let wf := sx_tag "wf" [sx_bool (dump_wf_b d); sx_bool (rank_ok_b d)] in
           match po_result po with
           | Ok bs => sx_tag "ok" [evs; SList (List.map enc_block bs);
                                   SList (List.map (fun g => SList (List.map enc_comment g)) (base_groups (po_store po) bs)); wf]
